@@ -178,10 +178,12 @@ def impl_oracles(ctx, scal, arr, full):
                         fail(f"arith-raises:{c.__name__}", f"{c.__name__}: ({x} {u.name}) +/- ({y} {v.name}) raised {type(e).__name__}: {e}",
                              {"class": c.__name__, "a": [x, u.name], "b": [y, v.name], "op": "+-"})
                         continue
-                    if not relclose(float(s), ws, 1e-11) or s.units is not u:
+                    # float cancellation: the error of a sum/difference scales with the operands
+                    atol = 1e-11 * max(1.0, abs(float(ea)), abs(float(eb)))
+                    if abs(float(s) - ws) > atol or s.units is not u:
                         fail(f"add-common:{c.__name__}", f"{c.__name__}: ({x} {u.name}) + ({y} {v.name}) = {float(s)!r} {s.units}; via common unit {ws!r} {u.name}",
                              {"class": c.__name__, "a": [x, u.name], "b": [y, v.name], "op": "+"})
-                    if not relclose(float(d), wd, 1e-11) or d.units is not u:
+                    if abs(float(d) - wd) > atol or d.units is not u:
                         fail(f"sub-common:{c.__name__}", f"{c.__name__}: ({x} {u.name}) - ({y} {v.name}) = {float(d)!r} {d.units}; via common unit {wd!r} {u.name}",
                              {"class": c.__name__, "a": [x, u.name], "b": [y, v.name], "op": "-"})
         # foreign units are an error
